@@ -10,7 +10,7 @@ EVIDENCE = dict(
          "AllOrNothing (contents change only by a commit installing the working copy) and OwnedWhenIdle. Real Pattern "
          "objects (shapes up to 3x3 exhaustively for failure positions, random beyond; attached and unattached) are "
          "edited through set_via_fn and set_via_gen with a failure injected at every cell position / every yield index, "
-         "partial and repeated yields, and sequences of 1-4 successive edits; the supplied callable logs the contents it "
+         "partial and repeated yields, sequences of 1-4 successive edits, and a first edit on a newly constructed pattern nothing has looked at yet; the supplied callable logs the contents it "
          "observes at each invocation; Trace_RVBulk validates one event per model action. non-trivial = the edit "
          "supplies a note different from the cell's previous content or fails.",
     explanation="fault_sequences: a failure at each cell/yield index; histories: successive edits on the same pattern")
@@ -35,8 +35,10 @@ def contents(pat):
     return [cell_of(n) for line in pat.data for n in line]
 
 
-def run_history(api, rnd, tid, lines, tracks, attached, edits, prefill):
-    """edits: list of dicts {setter, notes: [(k, cell)] in call/yield order, fail_at: index into notes or None}"""
+def run_history(api, rnd, tid, lines, tracks, attached, edits, prefill, fresh=False):
+    """edits: list of dicts {setter, notes: [(k, cell)] in call/yield order, fail_at: index into notes or None}
+    fresh: the pattern is not looked at (no .data / .raw_data access, no prefill) before the first edit has ended and the
+    first edit's callable is blind: the contents before are those of a newly constructed pattern - all cells empty."""
     pat = api.Pattern(lines=lines, tracks=tracks)
     proj = None
     if attached:
@@ -46,9 +48,13 @@ def run_history(api, rnd, tid, lines, tracks, attached, edits, prefill):
     for k, c in enumerate(prefill):
         n = pat.data[k // tracks][k % tracks]
         n.note, n.vel, n.module, n.ctl, n.val = c
-    tr = {"id": tid, "cells": contents(pat), "events": []}
+    tr = {"id": tid, "cells": contents(pat) if not fresh else [[0, 0, 0, 0, 0] for _ in range(lines * tracks)], "events": []}
     ev = tr["events"]
-    for ed in edits:
+    for ei, ed in enumerate(edits):
+        blind = fresh and ei == 0
+
+        def seen(p):
+            return {"blind": True, "seen": []} if blind else {"blind": False, "seen": contents(p)}
         ev.append({"op": "begin"})
         calls = ed["notes"]
         fail_at = ed["fail_at"]
@@ -66,11 +72,11 @@ def run_history(api, rnd, tid, lines, tracks, attached, edits, prefill):
                     k, c = calls[i]
                     if fail_at == i:
                         raise exc()
-                    if i in reuse:          # leave the cell alone by returning the note that is already there
+                    if i in reuse and not blind:          # leave the cell alone by returning the note that is already there
                         old = p.data[line][track]
-                        ev.append({"op": "cell", "k": k, "note": cell_of(old), "seen": contents(p)})
+                        ev.append(dict({"op": "cell", "k": k, "note": cell_of(old)}, **seen(p)))
                         return old
-                    ev.append({"op": "cell", "k": k, "note": c, "seen": contents(p)})
+                    ev.append(dict({"op": "cell", "k": k, "note": c}, **seen(p)))
                     return mk(c)
                 r = pat.set_via_fn(fn)
             else:
@@ -78,12 +84,12 @@ def run_history(api, rnd, tid, lines, tracks, attached, edits, prefill):
                     for i, (k, c) in enumerate(calls):
                         if fail_at == i:
                             raise exc()
-                        if i in reuse:      # move an existing note object to cell k
+                        if i in reuse and not blind:      # move an existing note object to cell k
                             src = p.data[0][0]
-                            ev.append({"op": "cell", "k": k, "note": cell_of(src), "seen": contents(p)})
+                            ev.append(dict({"op": "cell", "k": k, "note": cell_of(src)}, **seen(p)))
                             yield (k - 1) // tracks, (k - 1) % tracks, src
                             continue
-                        ev.append({"op": "cell", "k": k, "note": c, "seen": contents(p)})
+                        ev.append(dict({"op": "cell", "k": k, "note": c}, **seen(p)))
                         yield (k - 1) // tracks, (k - 1) % tracks, mk(c)
                     if fail_at == len(calls):
                         raise exc()
@@ -162,6 +168,14 @@ def run(ctx):
             if rnd.random() < 0.5:
                 follow.append(edit("fn", nc, None, False))
             traces.append(run_history(api, rnd, "s%d" % len(traces), ln, tk, attached, [e1] + follow, [rcell() for _ in range(nc)]))
+    # a bulk edit as the very first thing that happens to a newly constructed pattern (nothing has looked at it yet)
+    for (ln, tk), setter, attached in itertools.product(shapes[1:], ("fn", "gen"), (False, True)):
+        nc = ln * tk
+        for fail_at in [None] + list(range(nc + (1 if setter == "gen" else 0))):
+            e1 = edit(setter, nc, fail_at, partial=False)
+            if fail_at is not None and fail_at > len(e1["notes"]):
+                continue
+            traces.append(run_history(api, rnd, "f%d" % len(traces), ln, tk, attached, [e1, edit("gen", nc, None, partial=True)], [], fresh=True))
     # random histories of 1-4 edits on larger shapes
     for _ in range(150 if q else 2500):
         ln, tk = rnd.randrange(1, 7), rnd.randrange(1, 5)
